@@ -161,3 +161,51 @@ pub fn vec_i64_accepts_all(list: Vec<Value>) -> (r: core::result::Result<Vec<i64
 {
     Vec::<i64>::try_from(Value::Vec(list))
 }
+
+// ---- maps ----
+//@lemma roundtrip.btree_string_i64 C17
+pub fn roundtrip_btree_string_i64(m: BTreeMap<String, i64>) -> (r: core::result::Result<BTreeMap<String, i64>, Error>)
+    ensures r is Ok && r->Ok_0@ == m@,
+{
+    broadcast use axiom_into_reflexive_string;
+    let ghost m0 = m@;
+    let val = Value::from(m);
+    let ghost vm = val->Map_0@;
+    let r = BTreeMap::<String, i64>::try_from(val);
+    proof {
+        assert forall|k: String| m0.dom().contains(k) implies vm.dom().contains(k) by {
+            assert(conv_entry_dst::<String>(k, vm));
+        }
+        assert forall|k2: String| vm.dom().contains(k2) implies m0.dom().contains(k2) && vm[k2] == Value::Int(m0[k2] as i128) by {
+            assert(conv_entry_src::<String, i64>(m0, k2, vm[k2]));
+        }
+        if r is Ok {
+            assert(r->Ok_0@.dom() =~= m0.dom());
+            assert forall|k: String| m0.dom().contains(k) implies r->Ok_0@[k] == m0[k] by {
+                assert(call_ensures(<i64 as TryFrom<Value>>::try_from, (vm[k],), Ok::<i64, Error>(r->Ok_0@[k])));
+            }
+            assert(r->Ok_0@ =~= m0);
+        }
+    }
+    r
+}
+
+/// "extracting a map succeeds exactly when every element converts"
+//@lemma try_btree.rejects_at C17
+pub fn btree_i64_rejects_at(map: BTreeMap<String, Value>, Ghost(p): Ghost<String>) -> (r: core::result::Result<BTreeMap<String, i64>, Error>)
+    requires map@.dom().contains(p), !(map@[p] is Int) || !(i64::MIN <= map@[p]->Int_0 <= i64::MAX),
+    ensures r is Err,
+{
+    let ghost m0 = map@;
+    let r = BTreeMap::<String, i64>::try_from(Value::Map(map));
+    proof { if r is Ok { assert(call_ensures(<i64 as TryFrom<Value>>::try_from, (m0[p],), Ok::<i64, Error>(r->Ok_0@[p]))); } }
+    r
+}
+
+//@lemma try_btree.accepts_all C17
+pub fn btree_i64_accepts_all(map: BTreeMap<String, Value>) -> (r: core::result::Result<BTreeMap<String, i64>, Error>)
+    requires forall|k: String| map@.dom().contains(k) ==> (#[trigger] map@[k]) is Int && i64::MIN <= map@[k]->Int_0 <= i64::MAX,
+    ensures r is Ok && r->Ok_0@.dom() =~= map@.dom() && (forall|k: String| map@.dom().contains(k) ==> (#[trigger] r->Ok_0@[k]) as i128 == map@[k]->Int_0),
+{
+    BTreeMap::<String, i64>::try_from(Value::Map(map))
+}
